@@ -66,6 +66,39 @@ Proof.
     apply ascii_app; [destruct colon; repeat constructor; lia|repeat constructor; lia].
 Qed.
 
+(* the same, whatever follows: the offset items read their own rendering back as the offset exactly
+   when the rest is well-formed *)
+Lemma offset_reads_eq (colon : bool) off rest : -86400 < off < 86400 -> off mod 60 = 0 ->
+  reads_fixed (off_item colon) (offset_text off colon 0) rest =
+  (if utf8_valid rest then Some (W_code 21 off) else None).
+Proof.
+  intros Ho Hm. rewrite Proofs.C12.offset_text_unfold. cbv zeta. cbn [Z.eqb].
+  set (A := Z.abs off). assert (HA : 0 <= A < 86400 /\ A mod 60 = 0) by (unfold A; lia).
+  set (H := (A + 30) / 60 / 60). set (M := (A + 30) / 60 mod 60).
+  assert (HH : 0 <= H < 24) by (unfold H; lia). assert (HM : 0 <= M < 60) by (unfold M; lia).
+  assert (HV : H * 3600 + M * 60 = A) by (unfold H, M; lia).
+  rewrite (pad2_eq H) by lia. rewrite (pad2_eq M) by lia.
+  assert (E : forall t, reads_fixed (off_item colon) t rest = reads_offset (false, false, true) t rest).
+  { intros t. destruct colon; reflexivity. }
+  rewrite E. unfold Proofs.C12.off_sign.
+  assert (Hgo : forall sg, sg = (if off <? 0 then 45 else 43) ->
+    (if ((sg =? 43) || (sg =? 45)) && is_ascii_digit (48 + H / 10) && is_ascii_digit (48 + H mod 10)
+        && (48 <=? 48 + M / 10) && (48 + M / 10 <=? 53) && is_ascii_digit (48 + M mod 10) && utf8_valid rest
+     then Some (W_code 21 (off_value (sg =? 45) (48 + H / 10) (48 + H mod 10) (48 + M / 10) (48 + M mod 10))) else None)
+    = (if utf8_valid rest then Some (W_code 21 off) else None)).
+  { intros sg Hsg. unfold is_ascii_digit.
+    replace (((sg =? 43) || (sg =? 45)) && ((48 <=? 48 + H / 10) && (48 + H / 10 <=? 57)) &&
+             ((48 <=? 48 + H mod 10) && (48 + H mod 10 <=? 57)) && (48 <=? 48 + M / 10) && (48 + M / 10 <=? 53) &&
+             ((48 <=? 48 + M mod 10) && (48 + M mod 10 <=? 57))) with true
+      by (destruct (off <? 0); subst sg; lia).
+    cbn [andb]. destruct (utf8_valid rest); [|reflexivity].
+    f_equal. f_equal. unfold off_value.
+    replace ((48 + H / 10 - 48) * 10 + (48 + H mod 10 - 48)) with H by lia.
+    replace ((48 + M / 10 - 48) * 10 + (48 + M mod 10 - 48)) with M by lia.
+    rewrite HV. unfold A. destruct (off <? 0) eqn:E0; subst sg; cbn [Z.eqb Pos.eqb]; lia. }
+  destruct colon; cbn [app reads_offset]; [change (58 =? 58) with true; cbv iota|]; apply Hgo; reflexivity.
+Qed.
+
 (** * the value domain and the truncation *)
 Definition valid_dtz (yu ou : Z) (z : Model.DateTime.dtz) : Prop :=
   Proofs.C08Sweeps.repr yu ou (Model.DateTime.nd_date (Model.DateTime.dz_utc z)) /\
